@@ -57,7 +57,11 @@ fn peer_loop(mut s: UnixStream, delay: i32, acks: Arc<AtomicBool>, overlaps: Arc
                 }
                 _ => {
                     if flags & 0x8 != 0 && acks.load(Ordering::SeqCst) {
-                        Some(0u64.to_le_bytes().to_vec())
+                        // on the backend-request channel the first byte of the body names the caller's object /
+                        // region: 128 and above are refused, so that a caller can tell an acknowledgement meant for
+                        // another caller from its own
+                        let refused = !frontend && !body.is_empty() && body[0] >= 128;
+                        Some((refused as u64).to_le_bytes().to_vec())
                     } else {
                         None
                     }
@@ -176,22 +180,33 @@ pub fn run(args: &[Val]) -> Val {
             let be = Backend::from_stream(a);
             be.set_reply_ack_flag(true);
             be.set_shared_object_flag(true);
-            for (i, (_op, arg)) in ops.iter().cloned().enumerate() {
+            be.set_shmem_flag(true);
+            for (i, (op, arg)) in ops.iter().cloned().enumerate() {
                 let (p, bar, tx) = (be.clone(), barrier.clone(), tx.clone());
                 std::thread::spawn(move || {
                     bar.wait();
+                    let id = 1 + arg as u8;
                     let mut u = [0u8; 16];
-                    u[0] = 1 + arg as u8;
+                    u[0] = id;
                     let msg = VhostUserSharedMsg { uuid: uuid::Uuid::from_bytes(u) };
+                    let mm = VhostUserMMap { shmid: id, len: 4096, ..Default::default() };
+                    let file = vmm_sys_util::eventfd::EventFd::new(0).unwrap();
                     let mut r = "ok".to_string();
                     for _ in 0..reps {
-                        match p.shared_object_add(&msg) {
-                            Ok(0) => {}
-                            Ok(v) => {
+                        let res = match op.as_str() {
+                            "shared_object_remove" => p.shared_object_remove(&msg),
+                            "shmem_map" => p.shmem_map(&mm, &file),
+                            "shmem_unmap" => p.shmem_unmap(&mm),
+                            _ => p.shared_object_add(&msg),
+                        };
+                        // the peer accepts ids below 128 and refuses the others
+                        match (res, id >= 128) {
+                            (Ok(0), false) | (Err(_), true) => {}
+                            (Ok(v), _) => {
                                 r = format!("wrong:{}", v);
                                 break;
                             }
-                            Err(_) => {
+                            (Err(_), false) => {
                                 r = "err".to_string();
                                 break;
                             }
